@@ -29,7 +29,7 @@ def build(S, real="f64"):
 
 def scalar_value(s, dt):
     re, im, kind = s["re"], s["im"], s["kind"]
-    if kind == "int": return int(re)
+    if kind in ("int", "intbig"): return int(re)
     if kind == "float": return float(re)
     if kind == "bool": return bool(re)
     if kind == "npf64": return np.float64(re)
@@ -228,8 +228,8 @@ def handler(st, opts):
         return None
     prop = opts.get("prop", "C03")
     reals = ["f64", "f32"] if not case["x"]["cx"] else ["f64"]
-    if opts.get("f32") is False:
-        reals = ["f64"]
+    if opts.get("f32") is False or case.get("s", {}).get("kind") == "intbig":
+        reals = ["f64"]           # 2^24+1 is not a float32 number
     problems, stats = [], {}
     for real in reals:
         problems += run_one(case, res, real, prop, stats, opts)
